@@ -46,7 +46,7 @@ def run(pid, tier):
         r = tlc('TreeGen', 'TreeGen.cfg', pid, tag, workers=1 if simnum else 6,
                 env={'M': m, 'DEPTH': depth}, sim=(simnum, depth + 1) if simnum else None,
                 seed_arg=sd if simnum else None, timeout=7200,
-                pipe_to=[str(RDV), 'tree-replay', '--m', str(m)])
+                pipe_to=[str(RDV), 'tree-replay', '--m', str(m), '--prop', pid])
         require_ok(r, 'TreeGen ' + tag)
         o.add_tlc(r, 'TreeGen M=%d depth=%d%s' % (m, depth, ' simulate num=%d' % simnum if simnum else ' exhaustive'))
         s = json.loads(r.consumer_out.strip().splitlines()[-1])
